@@ -174,7 +174,11 @@ impl<T: TrustProvider> TrustAwarePeerSelector<T> {
         let mut scored: Vec<(NodeInfo, f64, [u8; 32], f64)> = candidates
             .iter()
             .filter_map(|node| {
+                // A provider that answers NaN does not know the peer: read it as 0.0
+                // (what `EigenTrustEngine::get_trust` answers for unknown peers), so that
+                // the exclusion filter sees it and the score stays a number.
                 let trust = self.get_trust_for_node(&node.id);
+                let trust = if trust.is_nan() { 0.0 } else { trust };
 
                 // Apply exclusion filter if configured
                 if config.exclude_untrusted && trust < config.min_trust_threshold {
@@ -186,7 +190,12 @@ impl<T: TrustProvider> TrustAwarePeerSelector<T> {
                 if score.is_nan() {
                     return None;
                 }
-                Some((node.clone(), score, full_xor_distance(key, &node.id), trust))
+                Some((
+                    node.clone(),
+                    score,
+                    full_xor_distance(key, &node.id),
+                    unit_interval(trust),
+                ))
             })
             .collect();
 
@@ -229,6 +238,9 @@ impl<T: TrustProvider> TrustAwarePeerSelector<T> {
 
         // Combine with trust score
         // Formula ensures even trust=0 nodes get α * distance_score
+        // Trust is a score in [0, 1]: an out-of-range answer of the provider (e.g. -5.0)
+        // would make the factor negative and turn the distance ranking upside down.
+        let trust = unit_interval(trust);
         let alpha = config.trust_weight;
         let trust_factor = alpha + (1.0 - alpha) * trust;
 
@@ -270,6 +282,20 @@ fn xor_distance(key: &DhtKey, node_id: &NodeId) -> u128 {
         distance = (distance << 8) | ((key_bytes[i] ^ node_bytes[i]) as u128);
     }
     distance
+}
+
+/// Read a value as a point of the unit interval: everything not above 0.0 (NaN and
+/// -0.0 included) is 0.0, everything from 1.0 up is 1.0.
+fn unit_interval(x: f64) -> f64 {
+    if x > 0.0 {
+        if x >= 1.0 {
+            1.0
+        } else {
+            x
+        }
+    } else {
+        0.0
+    }
 }
 
 /// Full 32-byte XOR distance between a key and a node ID (big-endian, so the array
